@@ -125,3 +125,14 @@ package remote
 //@   modifies anything
 //@   assume after "_, err, shared := b.fetchedRegionGroup.Do(key, func() (any, error) {" : err == nil && !shared ==> delivered[ref(allData)]
 //@   ensures[C06] result == nil && len(allData) != 0 ==> delivered[ref(allData)]
+
+// ---- C06: bytesWriter places every byte of the stream at its own offset ----
+// The writer receives the byte stream of a chunk piece by piece (io.Copy hands it over in pieces of up to 32 KiB); current
+// is the stream offset of the next piece, [destOff, destOff+len(dest)) the window the caller wants. Every call advances
+// the stream position by exactly len(p) and copies exactly the overlap of the piece with the window, byte for byte.
+//@ func (bw *bytesWriter) Write
+//@   props C06
+//@   arith math
+//@   requires 0 <= bw.current && 0 <= bw.destOff
+//@   modifies bw.current, bw.dest[*]
+//@   ensures[C06] result0 == len(p) && result1 == nil && bw.current == old(bw.current) + len(p)
